@@ -326,6 +326,12 @@ class AdaptModel:
         if name == 'PyTuple_SET_ITEM':
             self.tuples[args[0]][args[1]] = args[2]
             return None
+        if name == 'PyTuple_Pack':
+            t = Sym('tuple%d' % len(self.tuples))
+            self.tuples[t] = list(args[1:1 + args[0]])
+            return t
+        if name == 'PyObject_IsTrue':
+            return 1 if args[0] is not None else 0
         if name == 'PyTuple_GET_ITEM':
             if getattr(args[0], 'name', '') == 'adapter_hooks':
                 if not (0 <= args[1] < len(self.hooks)):
